@@ -113,3 +113,18 @@ def width_call(run, P):
 def width_diff(run, P):
     from rules import r_width
     r_width.run_e(run, P)
+def width_shiftcast(run, P):
+    from rules import r_width
+    r_width.run_f(run, P)
+def dangfield(run, P):
+    from rules import r_dangfield
+    r_dangfield.run(run, P)
+def finderkey(run, P):
+    from rules import r_finderkey
+    r_finderkey.run(run, P)
+def restart(run, P):
+    from rules import r_restart
+    r_restart.run(run, P)
+def blkmore(run, P):
+    from rules import r_blkmore
+    r_blkmore.run(run, P)
